@@ -195,6 +195,6 @@ def run_spec(spec, seed=0, prefix=None, mode="random", preempt=0, preempt_prob=0
         from . import scen_api
         sess = scen_api.make(spec)
     run = sched.run_scenario(sess.run, seed=seed, prefix=prefix, mode=mode, preempt=preempt, preempt_prob=preempt_prob, open_hook=sess.open_hook,
-                             hot=spec.get("hot"), hot_budget=spec.get("hot_budget", 0))
+                             hot=spec.get("hot"), hot_budget=spec.get("hot_budget", 0), stall=spec.get("stall"))
     run.session = sess
     return run
